@@ -262,8 +262,21 @@ def add_rules(rep, prog):
               "guard is %s" % [sorted(pred_fmt(p) for p in resolve(conj(r.path))) for r in raises])
     rets = S.select("return", qname=q)
     if len(rets) > 1:
-        rep.unk("RESULT.add", fwhere(f), "add_edges has %d return statements (an early exit?): which of them is guarded by the final count is not read" % len(rets))
-        return
+        # early exits: returning the untouched copy of the pattern when nothing is to be added is the general path with zero rounds; a graph
+        # built any other way is not "the input plus candidates that passed is_dag"
+        start = li["init"][g]
+        nothing = [("==0", PR.canon_sign_key(poly(NE))), ("==0", pkey(poly(NE)))]
+        others = []
+        for r_ in rets:
+            if r_.value == ("after", lid, g):
+                continue
+            trivial = r_.value in (start, ("method", start, "copy", (), ()), B and ("method", B, "copy", (), ())) and any(x_ in nothing for x_ in resolve(conj(r_.path)))
+            if not trivial:
+                others.append(r_)
+        if others:
+            rep.bad("RESULT.add", fwhere(f, others[0].node), "an early return hands out %s: not the input pattern plus candidates accepted by is_dag, and not covered by the final count" % fmt(others[0].value)[:70])
+            return
+        rets = [r_ for r_ in rets if r_.value == ("after", lid, g)]
     okr = len(rets) == 1 and rets[0].value == ("after", lid, g)
     asserted = False
     if okr:
